@@ -1,6 +1,6 @@
 (* C02 -- declared table length equals the number of bytes emitted. Statements only. *)
 From Coq Require Import NArith List.
-From ACPI Require Import Lib.Bytes Lib.Sx Lib.Machine Impl.Table Spec.Layout Proofs.TableP Proofs.Tables.
+From ACPI Require Import Lib.Bytes Lib.Sx Lib.Machine Impl.Table Spec.Layout Proofs.TableP Proofs.Tables Proofs.Registry.
 Import ListNotations.
 Open Scope N_scope.
 
